@@ -256,7 +256,7 @@ def untuple(seq):
 
 def run(chk):
     chk.prove([rrel_syntax_tr.translate])
-    n = 3000 if chk.thorough else 340
+    n = 2400 if chk.thorough else 340
     ctrees, ctexts = load_corpus()
     asts = list(CORPUS) + ctrees
     for i in range(n):
@@ -266,7 +266,7 @@ def run(chk):
     # the model's own text is fetched wherever its hash differs
     mine = [p_expr(seq, fl) for seq, fl in asts]
     muts = list(ctexts)
-    nm = 2500 if chk.thorough else 300
+    nm = 2000 if chk.thorough else 300
     for i in range(nm):
         r = chk.rng.split("m%d" % i)
         t = r.choice(mine)
@@ -371,3 +371,22 @@ def run(chk):
                         "Model/Rx.v is the semantics of Python's re for the translated regexes (validated by C04)",
                         "non-ASCII identifier characters are outside the theorem's hypotheses (names are ASCII identifiers; fixed names may be any text)"]
     decide(chk, failures, disagreements)
+
+
+def replay(rep):
+    """Re-run a recorded failing input on the implementation (./check C12 --replay out/C12/fail_1.json)."""
+    import json
+    case = rep.get("case") or {}
+    text = case.get("text") if isinstance(case, dict) else None
+    if text is None:
+        print(json.dumps(rep, indent=1))
+        return 0
+    o = core.run_impl_parallel("c12", [{"texts": [text]}])[0][0]
+    print("text:", repr(text))
+    print("implementation now answers:", json.dumps(o))
+    bad = o["ok"] and o["redump"] != o["dump"]
+    if bad:
+        print("property violated: parse(str(parse(text))) differs from parse(text); tags:", tags_of(o))
+    else:
+        print("property holds on this input" if o["ok"] else "the text is not accepted")
+    return 1 if bad else 0
